@@ -145,9 +145,11 @@ def infer_aliases(f: Func, roles):
         if isinstance(n, ast.Assign) and len(n.targets) == 1 and isinstance(n.targets[0], ast.Subscript) and isinstance(n.targets[0].value, ast.Name) \
                 and isinstance(n.value, ast.Call) and norm(n.value.func).endswith("reshape") and len(n.value.args) == 2 and isinstance(n.value.args[1], ast.List):
             elts = n.value.args[1].elts
-            if len(elts) >= 3 and all(isinstance(e, ast.Subscript) and isinstance(e.value, ast.Name) for e in elts):
+            # the mode sizes may be read from a local list (`N[k]`) or straight from an operand (`b.N[k]`)
+            if len(elts) >= 3 and all(isinstance(e, ast.Subscript) for e in elts) and isinstance(elts[0].value, ast.Name) and isinstance(elts[-1].value, ast.Name) \
+                    and all(isinstance(e.value, (ast.Name, ast.Attribute)) for e in elts[1:-1]):
                 if elts[0].value.id == elts[-1].value.id:
-                    trains.append((n.targets[0].value.id, elts[0].value.id, [e.value.id for e in elts[1:-1]]))
+                    trains.append((n.targets[0].value.id, elts[0].value.id, [e.value.id if isinstance(e.value, ast.Name) else None for e in elts[1:-1]]))
     returned = set()
     for n in ast.walk(f.node):
         if isinstance(n, ast.Return) and n.value is not None:
@@ -169,7 +171,8 @@ def infer_aliases(f: Func, roles):
             alias[xfam[0][0]] = sol[0][1]
             alias[roles["seqs"][zr][0][0]] = res[0][1]
             for (fam, _), actual in zip(xfam[1:-1], sol[0][2]):
-                alias[fam] = actual
+                if actual is not None:
+                    alias[fam] = actual
     # parameter lists of the matrix product, by position
     plist = roles.get("param_order")
     if plist:
